@@ -3,9 +3,9 @@ package checks
 import (
 	"encoding/json"
 	"errors"
-	"os"
 	"fmt"
 	"math/rand"
+	"os"
 	"runtime"
 	"sync"
 
@@ -287,8 +287,22 @@ func c10Execute(c *evid.Ctx, seed int64, seg int, nops int, f c10Fault) *c10Run 
 		c.Violation("C10:in-process:"+when+":"+h.firedKind+c10Eff(f), fmt.Sprintf("in-process state %s after a fault in %s (%s): %s", when, h.firedKind, c10Eff(f), best), replay(best))
 		return false
 	}
+	var forced []string // after a failed call: one acknowledged append, then straight to a reopen
 	for n := 0; n < nops; n++ {
 		op := c10NextOp(rng, l, seg, n)
+		if len(forced) > 0 {
+			switch forced[0] {
+			case "append":
+				next := l.Last + 1
+				if l.Empty() {
+					next = 1
+				}
+				op = gen.Op{Kind: "append", Logs: []*raft.Log{gen.Entry(rng, next, fmt.Sprintf("f%d", n), 8+rng.Intn(60))}}
+			case "reopen":
+				op = gen.Op{Kind: "reopen"}
+			}
+			forced = forced[1:]
+		}
 		firedBefore = h.fired
 		if c10Trace {
 			fmt.Printf("op %d: %s (calls so far %d, model [%d,%d])\n", n, op, disk.Seq(), l.First, l.Last)
@@ -369,6 +383,10 @@ func c10Execute(c *evid.Ctx, seed int64, seg int, nops int, f c10Fault) *c10Run 
 				events = append(events, c10Event{op: op})
 			case err != nil && !wantErr:
 				events = append(events, c10Event{op: op, failed: true})
+				if injectedNow && rng.Intn(5) < 3 {
+					// the batch right after a failed call is the last thing before a recovery
+					forced = []string{"append", "reopen"}
+				}
 				if op.Kind == "append" {
 					for _, lg := range op.Logs {
 						ever = append(ever, lg.Index)
